@@ -78,6 +78,11 @@ CLAIMED = {
         text="the rule (task of the target pool, never in the submitting context, hinted worker on static policies for every phase, fresh non-pika thread for std_thread_scheduler) is a TLA+ action guard; TLC validates every placement record of random pipelines over three pools (schedule/transfer_just/continues_on/then/bulk/execute, from inside and outside the runtime) and of hinted multi-phase tasks that yield or block between phases while wake-ups race with the context switch; the end-of-history record also requires that exactly the expected number of callables ran",
         note="there is no interesting interleaving model here: TLC acts as trace monitor and as enumerator of the rule's cases; only the value channel is claimed",
         design="5/C10"),
+    "C15": dict(
+        technique="TLA+ spec AffinityAbs (the binding predicate over a configuration and an outcome); TLC enumerates the configuration space (AffinityCases) and validates, as a trace, what the live runtime reports for every enumerated configuration",
+        text="TLC enumerates ~10k configurations (6 synthetic topologies x all process masks up to 6 PUs / windows and strides above x thread counts incl. |mask|+1 and the keywords cores/all x 5 binding modes x a second pool) and a hash-selected sample (all of 1/4 in thorough) is executed by the real runtime under HWLOC_SYNTHETIC, plus random taskset masks on the real machine with OS-reported affinity; every outcome must satisfy the TLA+ predicate: one PU per worker inside the mask, no sharing, reported = bound, exactly one pool per worker, impossible requests rejected, 'none' unbound",
+        note="TLC is used as enumerator and as evaluator of the predicate (no interleavings involved); multi-socket/SMT binding only via the masks pika computes under synthetic hwloc; one open finding (bind=none oversubscription)",
+        design="5/C15"),
 }
 
 NOT_YET = {}
